@@ -88,6 +88,20 @@ JUNK = ["<svg><a\xc9>x</a\xe9>y", "<math><m\u03a9>x</m\u03c9>y", "<svg><a\u212a>
 
 
 
+def foreign_namesake_docs():
+    """Foreign elements that are NAMED like HTML table-structure / select / frameset elements, an integration point beneath them, a
+    complete HTML table or select inside it, then a table-structure token: every place where html5lib looks at a name without
+    looking at the namespace is one step of this grammar (enumerated completely: 2 x 11 x 6 x 3 x 8 documents)."""
+    out = []
+    for root in ("<svg>", "<math>"):
+        for name in ("tr", "td", "th", "tbody", "thead", "tfoot", "caption", "colgroup", "select", "frameset", "html"):
+            for ip in ("<foreignObject>", "<desc>", "<title>", "<mi>", "<mtext>", "<annotation-xml encoding=text/html>"):
+                for inner in ("<select></select>", "<table></table>", "<table><tr><td></table>"):
+                    for follow in ("<caption>", "<col>", "<tr>", "<td>", "<tbody>", "x", "<option>", "</table>"):
+                        out.append("%s<%s>%s%s%s" % (root, name, ip, inner, follow))
+    return out
+
+
 def long_docs():
     """A few LONG documents (thousands of tokens when walked): block-wise buffering, caches that fill up and counters are only
     exercised by inputs of this size; nothing any property states depends on how much came before."""
